@@ -9,11 +9,10 @@ structure InvW (fx : Fixes) (cfg : Cfg) (sym lw : Nat) (st : St) : Prop where
   rows : ∀ r ∈ st.result, (∃ init, r = init ++ [(sym, [cfg.leftSym])]) ∧ rowWidth r ≤ lw
   lenlt : 2 ≤ lw → (st.len < lw ∨ st.stack = [] ∨ (fx.zwPerfectFit = true ∧ allZeroWidth st.stack = true))
   lenle : st.len ≤ lw
-  fits : fx.forceProgress = true → Fits cfg lw st.stack
 
-theorem invW_init (fx : Fixes) (cfg : Cfg) (sym lw : Nat) (line : List Sec)
-    (hf : fx.forceProgress = true → Fits cfg lw line) : InvW fx cfg sym lw (initSt line) := by
-  refine ⟨by simp [initSt], ?_, by simp [initSt], hf⟩
+theorem invW_init (fx : Fixes) (cfg : Cfg) (sym lw : Nat) (line : List Sec) :
+    InvW fx cfg sym lw (initSt line) := by
+  refine ⟨by simp [initSt], ?_, by simp [initSt]⟩
   intro h; left; simp [initSt]; omega
 
 theorem rowWidth_sym (sym : Nat) (g : G) : rowWidth [(sym, [g])] = g.w := by
@@ -36,12 +35,11 @@ theorem len_lt_of_split {fx : Fixes} {lw : Nat} {st : St} {style : Nat} {gs : Li
 theorem invW_step {fx : Fixes} {cfg : Cfg} {sym lw : Nat} {line : List Sec} (hsym : cfg.leftSym.w ≤ 1)
     (st st' : St) (hl : InvL cfg lw line st) (hi : InvW fx cfg sym lw st)
     (h : StepRel fx cfg sym lw st st') : InvW fx cfg sym lw st' := by
-  have hfits' : fx.forceProgress = true → Fits cfg lw st'.stack := fun hf => fits_step (hi.fits hf) h
-  obtain ⟨hrows, hlt, hle, hfits⟩ := hi
+  obtain ⟨hrows, hlt, hle⟩ := hi
   have hcur := hl.len
   cases h with
   | push style gs rest hs hlim hfit =>
-    refine ⟨hrows, ?_, ?_, hfits'⟩
+    refine ⟨hrows, ?_, ?_⟩
     · intro _
       rcases hfit with h1 | ⟨_, h2 | h3⟩
       · left; exact h1
@@ -49,12 +47,12 @@ theorem invW_step {fx : Fixes} {cfg : Cfg} {sym lw : Nat} {line : List Sec} (hsy
       · right; right; exact h3.2
     · simp only; omega
   | nl style gs rest hs hlim heq hnl =>
-    refine ⟨hrows, fun _ => Or.inr (Or.inl rfl), ?_, hfits'⟩
+    refine ⟨hrows, fun _ => Or.inr (Or.inl rfl), ?_⟩
     simp only; omega
-  | split0 style gs rest hs hlim hge hnf hw hns hnfo =>
+  | split0 style gs rest hs hlim hge hnf hns hw =>
     have h2 := lw_ge_two_of_not_limit hlim
     have hlen : st.len < lw := len_lt_of_split hs h2 hlt hle hge hnf
-    refine ⟨?_, fun _ => Or.inl (by simp only; omega), by simp, hfits'⟩
+    refine ⟨?_, fun _ => Or.inl (by simp only; omega), by simp⟩
     intro r hr
     simp only [List.mem_append, List.mem_singleton] at hr
     cases hr with
@@ -64,25 +62,19 @@ theorem invW_step {fx : Fixes} {cfg : Cfg} {sym lw : Nat} {line : List Sec} (hsy
       refine ⟨⟨st.curr, rfl⟩, ?_⟩
       rw [rowWidth_append, rowWidth_sym, hcur]
       omega
-  | splitk style gs rest hs hlim hge hnf hw =>
+  | splitk style gs rest hs hlim hge hnf hns hw =>
     have h2 := lw_ge_two_of_not_limit hlim
     have hlen : st.len < lw := len_lt_of_split hs h2 hlt hle hge hnf
-    refine ⟨?_, fun _ => Or.inl (by simp only; omega), by simp, hfits'⟩
+    refine ⟨?_, fun _ => Or.inl (by simp only; omega), by simp⟩
     intro r hr
     simp only [List.mem_append, List.mem_singleton] at hr
     cases hr with
     | inl h => exact hrows r h
     | inr h =>
       subst h
-      refine ⟨⟨st.curr ++ [(style, (takeFitF fx st.len (widthLeft cfg lw st.len gs) gs).1)], by simp⟩, ?_⟩
-      have htf : takeFitF fx st.len (widthLeft cfg lw st.len gs) gs = takeFit (widthLeft cfg lw st.len gs) gs := by
-        cases hfp : fx.forceProgress with
-        | false => exact takeFitF_eq fx _ _ _ (Or.inl hfp)
-        | true =>
-          have hfs : ∀ g ∈ gs, g.w + cfg.leftSym.w ≤ lw := hfits hfp (style, gs) (by rw [hs]; simp)
-          exact takeFitF_fits hfs hge
+      refine ⟨⟨st.curr ++ [(style, (takeFit (widthLeft cfg lw st.len gs) gs).1)], by simp⟩, ?_⟩
       have ht := takeFit_width (widthLeft cfg lw st.len gs) gs
-      rw [htf, rowWidth_append, hcur]
+      rw [rowWidth_append, hcur]
       unfold widthLeft at ht ⊢
       simp only [rowWidth, gsWidth]
       omega
